@@ -4,7 +4,7 @@
    63-bit integers, whose specifications (the Uint63 and PrimInt63 modules) the standard
    library declares as axioms.  The harness lists them under the trusted base. *)
 From Coq Require Import ZArith Reals.
-From SV Require Import C07.GaussR C07.GaussBox.
+From SV Require Import C07.GaussR C07.GaussBox C07.GaussWide.
 Local Open Scope R_scope.
 
 (* "helps": the error after refinement is at most the error before.  Proved for patch
@@ -20,3 +20,34 @@ Theorem c07_gaussian_error_does_not_grow_partial : forall sigma ax ay r,
                     Rabs (offy_R (gauss sigma ax ay) r - ay) <= ay).
 Proof. exact gauss_error_does_not_grow. Qed.
 Print Assumptions c07_gaussian_error_does_not_grow_partial.
+
+(* EVERY odd patch size 2r+1, sigma large relative to the patch: an analytic proof (no
+   interval arithmetic; only the axioms of the classical reals):
+       sigma^2 >= r(r+1)/6 + (2r+1)^2/8   (r = 1: sigma >= 1.21, r = 2: 2.04, r = 3: 2.86)
+   numerator <= 2 a r(r+1)(2r+1) / (6 sigma^2)  (1 - e^-t <= t, values <= 1),
+   mass >= (2r+1) (1 - (r+1/2)^2 / (2 sigma^2)). *)
+Theorem c07_gaussian_error_does_not_grow_large_sigma : forall sigma ax ay r, (1 <= r)%nat ->
+  IZR (Z.of_nat r) * (IZR (Z.of_nat r) + 1) / 6 +
+    (2 * IZR (Z.of_nat r) + 1) * (2 * IZR (Z.of_nat r) + 1) / 8 <= sigma * sigma ->
+  (0 < ax <= 1/2 -> 0 < offx_R (gauss sigma ax ay) r <= 2 * ax /\
+                    Rabs (offx_R (gauss sigma ax ay) r - ax) <= ax) /\
+  (0 < ay <= 1/2 -> 0 < offy_R (gauss sigma ax ay) r <= 2 * ay /\
+                    Rabs (offy_R (gauss sigma ax ay) r - ay) <= ay).
+Proof. exact gauss_no_overshoot_wide. Qed.
+Print Assumptions c07_gaussian_error_does_not_grow_large_sigma.
+
+(* patch sizes 3, 5, 7 and ALL sigma >= 1/2: the box above up to sigma = 4, the analytic
+   bound beyond.  PARTIAL: sigma < 1/2, and patch sizes > 7 with sigma below the bound of
+   the previous theorem, and even patch sizes, are not covered (measured by the harness). *)
+Theorem c07_gaussian_error_does_not_grow_all_sigma_partial : forall sigma ax ay r,
+  (1 <= r <= 3)%nat -> 1/2 <= sigma ->
+  (0 < ax <= 1/2 -> 0 < offx_R (gauss sigma ax ay) r <= 2 * ax /\
+                    Rabs (offx_R (gauss sigma ax ay) r - ax) <= ax) /\
+  (0 < ay <= 1/2 -> 0 < offy_R (gauss sigma ax ay) r <= 2 * ay /\
+                    Rabs (offy_R (gauss sigma ax ay) r - ay) <= ay).
+Proof. exact gauss_error_does_not_grow_all_sigma. Qed.
+Print Assumptions c07_gaussian_error_does_not_grow_all_sigma_partial.
+
+Example ex_c07_large_sigma_hypothesis :
+  IZR (Z.of_nat 2) * (IZR (Z.of_nat 2) + 1) / 6 + (2 * IZR (Z.of_nat 2) + 1) * (2 * IZR (Z.of_nat 2) + 1) / 8 <= 3 * 3.
+Proof. exact ex_large_sigma_hypothesis. Qed.
